@@ -479,6 +479,23 @@ def make_ring(seed):
     rnd = random.Random(seed * 31 + 1)
     g = Gen(rnd, sheets=LAYOUT[:1], features=())
     b, s = LAYOUT[0]
+    if rnd.random() < 0.35:
+        # a fan: ONE cell closes two different cycles through two guarded references
+        #   B1 = IF(A1, C1, 1) + IF(A2, D1, 2),  C1 = B1,  D1 = B1 * 2
+        g1, g2 = rnd.random() < 0.5, rnd.random() < 0.5
+        for i, gv in enumerate((g1, g2)):
+            gid = cid(b, s, 1, i + 1)
+            g.cells[gid] = {'k': 'c', 'v': V.B(gv)}
+            g.order.append(gid)
+        hub, c1, d1 = cid(b, s, 2, 1), cid(b, s, 3, 1), cid(b, s, 4, 1)
+        g.cells[hub] = {'k': 'f', 'e': ['op', '+',
+                                        ['fn', 'IF', [['ref', cid(b, s, 1, 1)], ['ref', c1], ['c', norm(V.N(1))]]],
+                                        ['fn', 'IF', [['ref', cid(b, s, 1, 2)], ['ref', d1], ['c', norm(V.N(2))]]]]}
+        g.cells[c1] = {'k': 'f', 'e': ['ref', hub]}
+        g.cells[d1] = {'k': 'f', 'e': ['op', '*', ['ref', hub], ['c', norm(V.N(2))]]}
+        g.order += [hub, c1, d1]
+        g.seed = seed
+        return g
     k = rnd.choice([2, 2, 3])
     guards = [rnd.random() < 0.5 for _ in range(k)]
     for i in range(k):
